@@ -174,7 +174,12 @@ Section Backup.
     miter (fun sub =>
              r <- backup_required sub ;;
              match r with
-             | (Some fi, true) => copy_dir backup sub fi ;;; set_info_if_new sub (Some fi)
+             | (Some fi, true) =>
+                 r <- try_ (copy_dir backup sub fi) ;;
+                 match r with
+                 | Err e => _ <- try_ (a_remove backup sub) ;; fail e
+                 | Ok _ => set_info_if_new sub (Some fi)
+                 end
              | _ => ret tt
              end) (cands dirPath).
 
@@ -195,13 +200,16 @@ Section Backup.
              | KFile =>
                  sf <- a_open base p ;;
                  r <- try_ (copy_file backup p fi sf) ;;
-                 _ <- try_ (hclose sf) ;;
                  match r with
-                 | Err e => fail e
-                 | Ok _ => set_info_if_new p (Some fi)
+                 | Err e => _ <- try_ (a_remove backup p) ;; _ <- try_ (hclose sf) ;; fail e
+                 | Ok _ => set_info_if_new p (Some fi) ;;; _ <- try_ (hclose sf) ;; ret tt
                  end
              | KLink =>
-                 copy_symlink base backup p fi ;;; set_info_if_new p (Some fi)
+                 r <- try_ (copy_symlink base backup p fi) ;;
+                 match r with
+                 | Err e => _ <- try_ (a_remove backup p) ;; fail e
+                 | Ok _ => set_info_if_new p (Some fi)
+                 end
              end
          end.
 
@@ -295,18 +303,18 @@ Section Backup.
   Definition restore_file (name : str) (info : finfo) : M unit :=
     r <- try_ (a_open backup name) ;;
     match r with
-    | Err _ => ret tt
+    | Err e => if is_not_found e then ret tt else fail e
     | Ok f =>
         r2 <- try_ (hstat f) ;;
         match r2 with
-        | Err _ => _ <- try_ (hclose f) ;; ret tt
+        | Err e => _ <- try_ (hclose f) ;; fail e
         | Ok fi =>
             r3 <- (match fi_kind fi with
                    | KFile => ret (Ok tt)
                    | _ => try_ (a_removeall base name)
                    end) ;;
             match r3 with
-            | Err _ => _ <- try_ (hclose f) ;; ret tt
+            | Err e => _ <- try_ (hclose f) ;; fail e
             | Ok _ =>
                 r4 <- try_ (copy_file base name info f) ;;
                 _ <- try_ (hclose f) ;;
@@ -316,20 +324,12 @@ Section Backup.
     end.
 
   Definition restore_symlink (name : str) (info : finfo) : M unit :=
-    r <- try_ (lexists backup name) ;;
-    match r with
-    | Err _ | Ok false => ret tt
-    | Ok true =>
-        r2 <- try_ (lexists base name) ;;
-        r3 <- (match r2 with
-               | Ok true => try_ (a_removeall base name)
-               | _ => ret (Ok tt)
-               end) ;;
-        match r3 with
-        | Err _ => ret tt
-        | Ok _ => copy_symlink backup base name info
-        end
-    end.
+    ex <- lexists backup name ;;
+    if negb ex then ret tt
+    else
+      ex2 <- lexists base name ;;
+      (if ex2 then a_removeall base name else ret tt) ;;;
+      copy_symlink backup base name info.
 
   (** run every element, collecting the errors (errors.Join) *)
   Fixpoint collect_errs {A} (f : A -> M unit) (l : list A) : M (list errno) :=
